@@ -16,10 +16,16 @@ CLAIMED = {
         text="Lean theorems over the model of utils.xor / netbios / pack / unpack / checksum8 / stager classifiers / random_stager_uri / "
              "find_staged_beacon gate, for all inputs (xor_involutive, xor_length, xor_identity, netbios_decode_encode, netbios_roundtrip, "
              "unpack_pack, pack_unpack, pack_overflow_iff, isStagerX86_iff, isStagerX64_iff, randomStagerUri_sound, staged_gate); model tied to "
-             "the code by an exhaustive+random correspondence run (all URIs up to length 2/3 over printable ASCII, length grids, width limits).",
-        note="CPython built-ins (int.from_bytes/to_bytes incl. the width-0 quirk, bytes(), re.match) are modelled, not verified; "
+             "the code twice: (1) the source text of xor, netbios_encode/decode, pack, unpack, checksum8, is_stager_x86/x64 and the u8..p64be "
+             "partials is translated to Lean on every run (tools/py2lean.py -> Gen/PyUtils.lean) and proved equal to the model for all arguments "
+             "(C20Gen.gen_*, 29 theorems), (2) an exhaustive+random correspondence run (all URIs up to length 2/3 over printable ASCII, length "
+             "grids, width limits) of both the model and the translated definitions against the real functions.",
+        note="The translator and the Python semantics it relies on (Model/PyRt.lean) are trusted and validated by the g-* streams; "
+             "CPython built-ins (int.from_bytes/to_bytes incl. the width-0 quirk, bytes(), re.match) are modelled, not verified; "
              "random.choice is a scripted stream; BeaconConfig.from_bytes is stubbed in the gate stream.",
-        design="§4 C20",
+        design="§4 C20, §12",
+        technique="Lean 4 theorems about an executable model; model tied to the code by source-to-Lean translation (proved equal) and by a "
+                  "model/implementation correspondence check",
     ),
     "C05": dict(
         text="Lean 4 proof over an executable model of pad, encrypt_data, decrypt_data, encrypt_packet, decrypt_packet, raise_for_signature, "
@@ -27,12 +33,17 @@ CLAIMED = {
              "HMAC[:16] over the ciphertext; with verification, acceptance is exactly 'key present, non-empty and MAC equal'; rejection is "
              "ValueError with AES never invoked (call-log theorem); client and server framings invert concatenation for all packet lists "
              "(client_frames_roundtrip by induction). AES-CBC and HMAC-SHA256 are parameters constrained only by CryptoLaws (satisfiable toy "
-             "instance given); rejection of a modified ciphertext / different key is proved under the explicit hypothesis that the truncated MACs differ.",
+             "instance given); rejection of a modified ciphertext / different key is proved under the explicit hypothesis that the truncated MACs differ. "
+             "The source text of pad, encrypt_data, decrypt_data, encrypt_packet, decrypt_packet, EncryptedPacket.dumps/raise_for_signature and "
+             "derive_aes_hmac_keys is translated to Lean on every run (tools/py2lean.py -> Gen/PyC2.lean, primitives as parameters) and proved equal "
+             "to the model for all arguments and primitives (C05Gen.gen_*).",
         note="Model tied to the code by running the real library against the compiled model with primitive results supplied from pycryptodome/hmac "
              "called directly and the ordered primitive-call log compared: every plaintext length 0-48, every single-bit flip and truncation of "
              "ciphertext and signature of 20 (quick) / 300 (thorough) packets, HMAC-key faults, verify=False, streams of 1-6 packets, malformed "
              "frames. BytesIO, cstruct uint32 and int.to_bytes semantics are modelled; crypto hardness is not assumed silently.",
-        design="§4 C05, §1.2",
+        design="§4 C05, §1.2, §12",
+        technique="Lean 4 theorems about an executable model; model tied to the code by source-to-Lean translation (proved equal) and by a "
+                  "model/implementation correspondence check",
     ),
     "C06": dict(
         text="Lean 4 proof: for every metadata whose integer fields fit their declared widths, every 16-byte aes_rand and every info with "
@@ -169,7 +180,9 @@ CLAIMED = {
              "satisfying the marker relation with room for a configuration in front (scan_reports_iff); guard unmasking round-trips; a protected "
              "area at any offset is found with exactly its offsets, settings and masked areas (marker_found); otherwise the guard metadata alone is "
              "reported (no_match_metadata_only); recovery of (config, key, settings, offsets) is proved under explicit dominance / no-collision "
-             "hypotheses (recover_partial, key_is_candidate, zero_padding_dominates) and periodic keys are recovered up to their root.",
+             "hypotheses (recover_partial, key_is_candidate, zero_padding_dominates) and periodic keys are recovered up to their root. "
+             "payload_checksum is additionally translated from its source text on every run (Gen/PyGuard.lean) and proved equal to the model "
+             "(C17Gen.gen_payload_checksum).",
         note="Recovery is partial by nature: the full statement is refuted in Lean (recover_full_fails: periodic keys; the weak additive checksum "
              "admits same-length collisions, demonstrated). The XorEncoded view, PE helpers and the ordinary extraction path are parameters. cstruct, "
              "BufferedReader.peek and Counter.most_common are modelled and exercised by dedicated streams; constants come from tools/gen/guardrails.py. "
@@ -269,7 +282,7 @@ def main():
             "engine": "lean4-proof+correspondence",
             "level_claimed": {"category": "proof", "text": c["text"], "design_ref": c["design"]},
             "level_note": COMMON_NOTE + c["note"],
-            "technique": "Lean 4 theorems about an executable model + model/implementation correspondence check",
+            "technique": c.get("technique", "Lean 4 theorems about an executable model + model/implementation correspondence check"),
         })
     man = {
         "version": 1,
